@@ -53,7 +53,9 @@ def collect(ctx, mode="acyclic", n_quick=400, n_thorough=20000):
     dist["disagreements_excused_by_known_finding_order_dependence"] = sum(a["excused_disagree"] for a in an)
     dist["cases_with_order_choice_points"] = sum(a["order_sensitive_cases"] for a in an)
     dist["order_sensitive_cases_matching_descending_model"] = sum(a["order_matched_desc"] for a in an)
-    dist["order_sensitive_cases_matching_neither_order_(oracle_only)"] = sum(a["order_unresolved"] for a in an)
+    dist["order_sensitive_cases_matching_a_searched_order"] = sum(a["order_matched_tape"] for a in an)
+    dist["order_sensitive_cases_matching_in_values_only"] = sum(a["order_values_only"] for a in an)
+    dist["order_sensitive_cases_matching_no_order_(oracle_only)"] = sum(a["order_unresolved"] for a in an)
     dist["cases_compared_strictly"] = sum(a["cases"] - a["order_sensitive_cases"] for a in an)
     res.distribution = dist
     return res, an
